@@ -1,7 +1,9 @@
 package proxy
 
 import (
+	"bufio"
 	"crypto/tls"
+	"errors"
 	"fmt"
 	"net"
 	"net/http"
@@ -111,6 +113,11 @@ func NewUpstreamReverseProxy(config *UpstreamConfig, signer *RequestSigner) (htt
 	// We cast this to an http.Handler so the following middleware logic follows naturally.
 	var handler http.Handler = reverseProxy
 
+	// Keep the response headers that the middleware above has already set (security headers,
+	// Strict-Transport-Security, a refreshed session cookie) when the upstream answers with an
+	// interim (1xx) response first: httputil.ReverseProxy empties the header map after forwarding one.
+	handler = keepPresetHeaders(handler)
+
 	// Apply a timeout handler if configured
 	// http.TimeoutHandler doesn't support flushing, so only create one if no flush interval is set.
 	if config.FlushInterval == 0 && config.Timeout != 0 {
@@ -214,6 +221,68 @@ func newSigningHandler(handler http.Handler, config *UpstreamConfig, signer *Req
 }
 
 // newTimeoutHandler creates a new TimeoutHandler middleware with a preconfigured message based on service name and timeout
+// keepPresetHeaders hands the wrapped handler a response writer that remembers the response headers
+// set before it was called and puts them back, ahead of whatever the handler added since, when the
+// final response header is written after one or more interim (1xx) responses.
+func keepPresetHeaders(h http.Handler) http.Handler {
+	return http.HandlerFunc(func(rw http.ResponseWriter, req *http.Request) {
+		preset := make(http.Header, len(rw.Header()))
+		for key, vals := range rw.Header() {
+			preset[key] = append([]string(nil), vals...)
+		}
+		h.ServeHTTP(&presetHeaderWriter{ResponseWriter: rw, preset: preset}, req)
+	})
+}
+
+type presetHeaderWriter struct {
+	http.ResponseWriter
+	preset  http.Header
+	interim bool
+}
+
+func (w *presetHeaderWriter) WriteHeader(code int) {
+	if code >= 100 && code <= 199 && code != http.StatusSwitchingProtocols {
+		w.interim = true
+	} else if w.interim {
+		w.interim = false
+		header := w.ResponseWriter.Header()
+		for key, vals := range w.preset {
+			if !hasPrefixValues(header[key], vals) {
+				header[key] = append(append([]string(nil), vals...), header[key]...)
+			}
+		}
+	}
+	w.ResponseWriter.WriteHeader(code)
+}
+
+func hasPrefixValues(have, prefix []string) bool {
+	if len(have) < len(prefix) {
+		return false
+	}
+	for i := range prefix {
+		if have[i] != prefix[i] {
+			return false
+		}
+	}
+	return true
+}
+
+// Unwrap, Flush and Hijack keep streaming and connection upgrades working through the wrapper.
+func (w *presetHeaderWriter) Unwrap() http.ResponseWriter { return w.ResponseWriter }
+
+func (w *presetHeaderWriter) Flush() {
+	if f, ok := w.ResponseWriter.(http.Flusher); ok {
+		f.Flush()
+	}
+}
+
+func (w *presetHeaderWriter) Hijack() (net.Conn, *bufio.ReadWriter, error) {
+	if hij, ok := w.ResponseWriter.(http.Hijacker); ok {
+		return hij.Hijack()
+	}
+	return nil, nil, errors.New("http.Hijacker is not available on writer")
+}
+
 func newTimeoutHandler(handler http.Handler, config *UpstreamConfig) http.Handler {
 	timeoutMsg := fmt.Sprintf("%s failed to respond within the %s timeout period", config.Service, config.Timeout)
 	return http.TimeoutHandler(handler, config.Timeout, timeoutMsg)
